@@ -191,6 +191,13 @@ harnesses! {
     fn c03_sfo_quadratic_grid(nd) { sfo!(nd, f32, boxed32, SincInterpolationType::Quadratic, 8, 3, 2, 3.0, 14, 4, "base", grid, [(3.0, 2)]); }
 
 
+
+    // ---- three successive ratio changes on tiny chunks (each setter recomputes the input need)
+    #[kani::unwind(10)]
+    fn c03_ffo_three_changes(nd) { ffo!(nd, f64, PolynomialDegree::Linear, 3, 2.0, 14, 5, "base", grid, [(1.0, 1), (1.25, 1), (1.25, 1)]); }
+    #[kani::unwind(10)]
+    fn c03_sfo_three_changes(nd) { sfo!(nd, f64, boxed64, SincInterpolationType::Linear, 8, 2, 3, 2.0, 14, 5, "base", grid, [(1.0, 1), (1.25, 1), (1.25, 1)]); }
+
     // ---- recorded finding: oversampling factor 1 with Quadratic / Cubic interpolation asks the
     // kernel for a sub-filter index >= nbr_sincs (region `oversampling_1`)
     #[kani::unwind(10)]
